@@ -5,4 +5,5 @@ pub mod market;
 pub mod mkt;
 pub mod liq;
 pub mod liq06;
+pub mod lp;
 pub mod perp;
